@@ -341,7 +341,11 @@ def rt_compact(vm):
         return 'VIOLATION: invalid port accepted'
     if len(compact) != 54:
         return 'VIOLATION: compact address length'
-    if decode_compact_address(bytes(compact)) != (pid, addr, port):
+    try:
+        back = decode_compact_address(bytes(compact))
+    except Exception as e:
+        return 'VIOLATION: a compact address that was just encoded does not decode (%s)' % type(e).__name__
+    if back != (pid, addr, port):
         return 'VIOLATION: compact address does not round-trip'
     return 'ok'
 
